@@ -192,7 +192,14 @@ impl<'a> Ctx<'a> {
             self.mismatch(p, step, &format!("decision of {op}"), expected.to_string(), got.detail(), extra.clone());
             // a crash where the specification says the call succeeds is also a failure of the functional property
             if got.class() == "Panic" && expected == "Ok" && prop != "C08" {
-                self.mismatch(prop, step, &format!("decision of {op}"), expected.to_string(), got.detail(), extra);
+                self.mismatch(prop, step, &format!("decision of {op}"), expected.to_string(), got.detail(), extra.clone());
+            }
+            // the library refuses (or crashes on) a call of the draft's own operations that the specification -- and the
+            // reference implementation, which follows it -- carries out: its outputs and decisions differ from an
+            // independent implementation's (C10)
+            let base = op.split(' ').next().unwrap_or(op);
+            if expected == "Ok" && ["Sign", "Verify", "ProofGen", "ProofVerify", "CommitA", "BlindSign", "VerifyBlind", "BlindProofGen", "BlindProofVerify"].contains(&base) && matches!(prop, "C01" | "C03" | "C05") {
+                self.mismatch("C10", step, &format!("decision of {op} (the reference implementation carries this call out)"), expected.to_string(), got.detail(), extra);
             }
             false
         } else {
